@@ -93,11 +93,22 @@ def run(ctx):
                         {'how': markers.describe(sess, r), 'diagram': pretty(sess.models[r])[:3000]}, cls=classify(sess.models[r]))
         # hand walk vs evaluate()
         cmds, meta = [], []
-        for r in ctx.rng.sample(regs, min(len(regs), 150 if quick else 400)):
+        # one marker per kind of node, positive and negated, alone and above another node: always walked, on more environments
+        always = []
+        for t in ("'nt' not in os_name", "'nt' in os_name or extra == 'a'", "os_name not in 'posix nt' and extra != 'b'", "os_name in 'posix nt'", "extra != 'a'",
+                  "extra == 'a' and extra != 'b'", "python_full_version != '3.8'", "os_name != 'posix'", "os_name > 'a' and 'x' in sys_platform",
+                  "python_version < '3.9' or 'win' not in sys_platform"):
+            ra, _ = sess.parse(t)
+            if ra is not None:
+                always.append(ra)
+                rn, _ = sess.op('not', ra)
+                if rn is not None:
+                    always.append(rn)
+        for r in always + ctx.rng.sample(regs, min(len(regs), 150 if quick else 400)):
             m = sess.models[r]
             if isinstance(m, Exception):
                 continue
-            for env, ex in markers.grid_envs(ctx.rng, keys, [m], 4):
+            for env, ex in markers.grid_envs(ctx.rng, keys, [m], 10 if r in always else 4):
                 em = markers.env_model(keys, env, sess.p)
                 if em is None:
                     continue
